@@ -41,11 +41,14 @@ theorem sane_bridge (k : KeyID) : Gen.KeyId.sanityChecker_1 k = KeyID.sane k := 
 theorem sane_consistent (k : KeyID) : Gen.KeyId.sanityChecker_1 k = true ↔ k.consistent := by
   rw [sane_bridge]; exact KeyID.sane_iff k
 
+/-- `Marshal`: version lookup, consistency check, `json.Marshal`, and the text is returned as it
+    came out of the encoder (no step in between) -/
 theorem stepsMarshal_bridge : Gen.KeyId.stepsMarshal =
-    [c!"sanityCheckerByVersion[kid.Version]", c!"sanityChecker", c!"json.Marshal"] := by decide
+    [c!"sanityCheckerByVersion[kid.Version]", c!"sanityChecker", c!"json.Marshal",
+     c!"return string(kidBytes)", c!"string"] := by decide
 
 theorem stepsUnmarshal_bridge : Gen.KeyId.stepsUnmarshal =
-    [c!"json.Unmarshal", c!"requiredKeysByVersion[kid.Version]", c!"json.Unmarshal",
-     c!"range requiredKeys", c!"sanityCheckerByVersion[kid.Version]", c!"sanityChecker"] := by decide
+    [c!"[]byte", c!"json.Unmarshal", c!"requiredKeysByVersion[kid.Version]", c!"make", c!"json.Unmarshal",
+     c!"range requiredKeys", c!"sanityCheckerByVersion[kid.Version]", c!"sanityChecker", c!"return kid"] := by decide
 
 end Ysshra.Bridge.KeyId
